@@ -79,6 +79,16 @@ impl OwnedLazyValue {
     pub(crate) fn from_faststr(str: FastStr) -> Self {
         Self(LazyPacked::Parsed(Parsed::String(str)))
     }
+
+    // the literals `true`, `false` and `null` are never kept as raw text
+    fn from_literal(raw: &[u8]) -> Option<Self> {
+        match raw.first() {
+            Some(b't') => Some(true.into()),
+            Some(b'f') => Some(false.into()),
+            Some(b'n') => Some(().into()),
+            _ => None,
+        }
+    }
 }
 
 impl From<Number> for OwnedLazyValue {
@@ -545,6 +555,10 @@ impl OwnedLazyValue {
             JsonSlice::FastStr(f) => f.clone(),
         };
 
+        if let Some(literal) = Self::from_literal(raw.as_bytes()) {
+            return literal;
+        }
+
         if status == HasEsc::None {
             Self(LazyPacked::NonEscStrRaw(raw))
         } else {
@@ -585,6 +599,10 @@ impl OwnedLazyValue {
 impl<'de> From<LazyValue<'de>> for OwnedLazyValue {
     fn from(lv: LazyValue<'de>) -> Self {
         let raw = unsafe { lv.raw.as_faststr() };
+        if let Some(literal) = Self::from_literal(raw.as_bytes()) {
+            return literal;
+        }
+
         if lv.inner.no_escaped() && raw.as_bytes()[0] == b'"' {
             return Self(LazyPacked::NonEscStrRaw(raw));
         }
